@@ -78,6 +78,8 @@ pub fn record(seed: u64, n: usize, max_states: usize, out_path: &str) {
         vec![vec![0, 8, 0], vec![-4, 0, 4]],
         vec![vec![8], vec![-2, -4, 0, 4, 2], vec![8, -16, 8]],
         vec![vec![8], vec![-4, 0, 4], vec![2, 0, -4, 0, 2]],
+        vec![vec![8], vec![0, -4, 0, 4, 0]],
+        vec![vec![8], vec![0, -8, 8], vec![8, -16, 8]],
     ];
     let evs = par_map(&its, |_, it| {
         let mut rng = Rng::new(seed ^ 0x5a ^ ((*it as u64) << 18));
